@@ -252,3 +252,33 @@ fn c17_lfn_two_pushes_utf8() {
     kani::cover!(s.len() == 10);
     kani::cover!(s.len() == 0 && len >= 1);
 }
+
+// ---------------------------------------------------------------- stubs ---
+// For the directory-level harness (vk_fat::c17_dir_lfn_runs) the buffer
+// operations are replaced by counters: which fragments get pushed is decided
+// there, what a push does is decided by the harnesses above.
+pub(crate) static mut LFN_PUSHES: u32 = 0;
+pub(crate) static mut LFN_CLEARS: u32 = 0;
+pub(crate) fn stub_lfn_push<'a>(_this: &mut LfnBuffer<'a>, _buffer: &[u16; 13])
+where
+    'a: 'a,
+{
+    unsafe {
+        LFN_PUSHES += 1;
+    }
+}
+pub(crate) fn stub_lfn_clear<'a>(_this: &mut LfnBuffer<'a>)
+where
+    'a: 'a,
+{
+    unsafe {
+        LFN_CLEARS += 1;
+        LFN_PUSHES = 0;
+    }
+}
+pub(crate) fn stub_lfn_as_str<'a, 'b>(_this: &'b LfnBuffer<'a>) -> &'b str
+where
+    'a: 'a,
+{
+    "L"
+}
